@@ -25,6 +25,8 @@ SEEDS = ["2016-10-06", "20161006", "2016-280", "2016280", "2016-W40-4", "2016W40
          "9999-W52-6", "9999-W52-7", "9999W527", "9999-W52-5T10:00:00", "0001-W01-1", "2020-W54-1", "2015W60", "2020-W53-7", "2021-W53-1",
          "2016:12:26 15:45:28.1234567", "2021/02/28 23:59:59,12345678", "9:05:03.1234567", "2016:12:26 15:45:28.123456789",
          "2019-W53-1", "2019W53", "2020-W99-7", "2020W541", "2020-W10-8", "2016-W53", "2015-W54",
+         "2007-03-01T13:00:00Z/PT2.30M", "PT1,25H/2008-05-11T15:30:00Z", "2007-03-01T13:00:00+01:00/P1.5D", "2007-03-01T13:00:00Z/P1.2W",
+         "2007-03-01T13:00:00Z/PT0.9999996S", "PT1.0000005S/2008-05-11T15:30:00-03:00", "2007-03-01T13:00:00Z/PT2.5M", "2007-03-01T13:00:00Z/PT1.5S",
          "2016:10:06 12:34:56", "2016/10/06", "0000/13/99 12:30", "0000-01-01 00:00:00", "2016/00/10 01:02", "2016:02:30 12:34:56",
          "0000:10:06 12:34", "2016/10/06 12:34:56", "2016:10", "2016/10", "201610", "2016:10 12:34", "2016/10 1:2:3.5", "12:34"]
 RANDOM_EXTRA = ["", " ", "T", "P", "PT", "-", "+", "::", "2016-10-06T", "2016-10-06T12:34:56+", "٢٠١٦-١٠-٠٦", "２０１６-10-06", "2016‐10‐06",
